@@ -20,23 +20,24 @@ PROP = dict(
                              'Fit.Links.Link_stdFactory_ok'],
                      crosscheck=[('dechist', 'linkdecapi')]),
     theorems=['Fit.C07.C07_decode_from_clean', 'Fit.C07.C07_boundary_clean', 'Fit.C07.C07_reset_is_new', 'Fit.C07.C07_integrity_check_is_new',
-              'Fit.C07.C07_history_indep', 'Fit.C07.C07_rejected_everywhere', 'Fit.C07.C07_decode_ignores_tail', 'Fit.C07.C07_peek_transparent',
+              'Fit.C07.C07_history_indep_partial', 'Fit.C07.C07_full_fails', 'Fit.C07.C07_overrun_depends_on_op',
+              'Fit.C07.C07_rejected_everywhere_partial', 'Fit.C07.C07_decode_ignores_tail', 'Fit.C07.C07_peek_transparent',
               'Fit.C07.C07_former_witnesses'],
     families=[dict(name='dechist', prop=True), dict(name='decapi')],
     trusted_base=STD_TRUST + [
         "the state-machine model of the decoder API (FitModel/DecoderApi.lean; see C03) tied to decoder.go by the families dechist and decapi: per-operation results, returned messages and listener calls of whole API histories compared between the real decoder object and the model",
-        "the specification (FitModel/DecoderApiSpec.lean: specRun) says what every call of a history must return using NEW decoders only (St.fresh on the bytes of the current sequence): a function of the sequence's bytes and the options by construction; --prop evaluates it on the implementation's answers",
+        "the specification (FitModel/DecoderApiSpec.lean: specRun) says what every call of a history must return using NEW decoders only (St.fresh on the bytes of the current sequence): a function of the sequence's bytes and the options by construction; the next sequence starts at the protocol's end of the consumed one (seqExtent = header size + declared data size + 2 CRC bytes), whatever operation consumed it; --prop evaluates it on the implementation's answers",
         "the documented use of CheckIntegrity is modelled: the operation `ci` is CheckIntegrity() followed by reader.Seek(0, io.SeekStart)",
     ],
     assumptions=[
-        "streams are byte strings shorter than 4 GiB (Decoder.cur is a uint32); exact-n reader (C08); acyclic factory components (see C03)",
-        "after a PeekFileId whose last record overran the data window (malformed predecessor) the specification demands nothing of a following Discard (position not comparable with a new decoder's) until Reset",
+        "streams are byte strings shorter than 4 GiB (Decoder.cur is a uint32); exact-n reader (C08); acyclic factory components (see C03); factories of the tie: scale-1 components, no sub-fields (see C03)",
+        "NoOverrun (open finding KF-C07-4, hypothesis of C07_history_indep_partial, decidable, printed by --kf): no operation follows - without a Reset / CheckIntegrity+re-seek in between - the consumption of a sequence whose last record runs past the declared data size (a new decoder performing the consuming operation does not stop at header + data size + 2), and none is the Discard after a PeekFileId whose last record overran",
         "the verdict of CheckIntegrity itself is C04's subject (nothing demanded here); its effect on what follows is demanded",
     ],
 )
 
 TEXT = dict(
-    technique='Lean 4 proof: simulation between the decoder object (state machine) and a specification that only uses new decoders, by phases (start / header read / file id peeked / peek failed / dead / blind); loop-splitting lemma (the record loop of Decode continues the loop of PeekFileId), tail independence by a relational Hoare layer over the result monad (every function of the model on a longer stream does what it does on the shorter one), fuel irrelevance, header decode independent of the checksum option, Discard ends at the end of the data window wherever inside the window it starts; differential correspondence and the specification as oracle on the real decoder',
-    text='C07_history_indep (full strength, no exclusion): for every byte stream (< 4 GiB), option set, acyclic factory and every history of Decode / DecodeWithContext (context live, cancelled before the call, or cancelled at any record boundary during it) / PeekFileHeader / PeekFileId / Discard / Next / CheckIntegrity+re-seek / Reset(new reader, new options), every result the decoder object returns — outcome class, FIT, header, file id, listener calls — equals what the specification computes with new decoders on the bytes of the current sequence. C07_boundary_clean: every operation ending a sequence leaves per-sequence state and look-ups as new. C07_reset_is_new (no hypothesis at all): after Reset(r, opts) the whole state of the object equals decoder.New(r, opts); C07_integrity_check_is_new: after CheckIntegrity + re-seek a live decoder equals a new one on the same stream, whatever the check found. C07_rejected_everywhere: a sequence a new decoder rejects with e is rejected with e after every history. C07_decode_ignores_tail: what a new decoder returns on S ++ T is what it returns on S alone (same FIT, same listener calls, T left unread; same error unless S merely ended early) — so "the stream from the current sequence on" in the specification is "the bytes of the sequence". C07_peek_transparent / C07_former_witnesses: the witnesses of the three repaired findings now agree with the specification. F08 (look-ups surviving Discard / Reset / CheckIntegrity after PeekFileId), F10 (stale read-buffer bytes after a failing CheckIntegrity) and F09 (PeekFileId reading past a sequence without file_id) were reported by this check on the unchanged tree, repaired in /repo (bbd9d2d, 318ff80, 2f8ae41) and are now part of the proved statement; reverting any of the three makes the check print a VIOLATION again.',
-    note='No exclusion left. Proved about the model; tie = differential testing of whole histories (6-8k histories quick, 160k thorough, plus the decapi family).',
+    technique='Lean 4 proof: simulation between the decoder object (state machine) and a book-keeping that only uses new decoders, by phases (start / header read / file id peeked / peek failed / dead); loop-splitting lemma (the record loop of Decode continues the loop of PeekFileId), tail independence by a relational Hoare layer over the result monad, fuel irrelevance, header decode independent of the checksum option, Discard ends at the end of the data window wherever inside the window it starts; then a second simulation from that operation-dependent book-keeping (SameOp.specRun, a proof device) to the operation-INDEPENDENT specification specRun (next sequence at the protocol end of the consumed one), valid on histories without an overrunning predecessor; refutation of the full statement by kernel evaluation of a witness; differential correspondence and the specification as oracle on the real decoder',
+    text='OPEN FINDING KF-C07-4 - the property as written is FALSE on the current tree (C07_full_fails, C07_overrun_depends_on_op, both kernel-decided on the model the driver runs, reproduced on the real code): Decode / DecodeWithContext / PeekFileId let the last record of a sequence run past the data size its header declares, Discard and CheckIntegrity skip exactly the declared size; after such a predecessor (25 bytes: data size 10, 11 bytes of records) followed by a valid sequence P: Decode,Decode -> ok,ok; Discard,Decode -> ok,"not a FIT file"; PeekFileId,Discard,Decode -> ok,ok,ok. What is proved: C07_history_indep_partial - for every byte stream (< 4 GiB), option set, acyclic factory and every history of Decode / DecodeWithContext (context live, cancelled before the call, or cancelled at any record boundary during it) / PeekFileHeader / PeekFileId / Discard / Next / CheckIntegrity+re-seek / Reset(new reader, new options) THAT SATISFIES NoOverrun (no operation follows the consumption of a sequence whose last record overruns its declared data size, and none is the Discard after an overrunning PeekFileId), every result the decoder object returns - outcome class, FIT, header, file id, listener calls - equals what the specification computes with new decoders on the bytes from the protocol end (header + data size + 2) of the previous sequence, whatever operation consumed that one. The full statement without NoOverrun is kept as def C07_history_indep_full. C07_boundary_clean: every operation ending a sequence leaves per-sequence state and look-ups as new. C07_reset_is_new (no hypothesis at all): after Reset(r, opts) the whole state of the object equals decoder.New(r, opts); C07_integrity_check_is_new: after CheckIntegrity + re-seek a live decoder equals a new one on the same stream, whatever the check found. C07_rejected_everywhere_partial: under NoOverrun a sequence a new decoder rejects with e is rejected with e after every history. C07_decode_ignores_tail: what a new decoder returns on S ++ T is what it returns on S alone (closed for Decode only; Discard / PeekFileHeader / PeekFileId on S ++ T are not covered by a tail theorem). C07_peek_transparent / C07_former_witnesses: kernel evaluations of the witnesses of the three repaired findings (instances, not general statements). F08, F10, F09 were reported by this check on the unchanged tree, repaired in /repo (bbd9d2d, 318ff80, 2f8ae41) and are inside the proved statement; reverting any of the three makes the check print a VIOLATION again.',
+    note='One exclusion: the class of KF-C07-4 (NoOverrun), open - a candidate repair (Decode / PeekFileId return an error when the messages end past the declared data size, as the official Java SDK does; the unedited suite passes with it: notes/candidate-fix-KF-C07-4.patch) is not landed because it changes which inputs Decode accepts and every decode-loop model and link theorem of C01/C02/C04/C08/C16 would have to follow (RawDecoder has the same tolerant loop). The former "blind" phase of the specification (nothing demanded after PeekFileId(overrun)+Discard) is gone: it was this class. Proved about the model with scale-1 / no-sub-field factories; tie = differential testing of whole histories (9k histories quick incl. ~800 with overrunning predecessors, plus the decapi family).',
 )
